@@ -69,7 +69,7 @@ def run(ctx):
             ctx.violation(v["key"], v["what"], v.get("replay"))
         if sample is None:
             sample = dict(config=name, keytab=kt)
-    if tot["proofs_verified"] < 100 or tot["tampered_proofs_rejected"] < 100:
+    if not ctx.violations and (tot["proofs_verified"] < 100 or tot["tampered_proofs_rejected"] < 100):
         raise Inconclusive("too few proofs exercised: vacuous")
     cov = dict(traces_validated_against_impl=tot["histories"], samples=[sample], replayed_batches=tot["steps"],
                roots_compared=tot["roots_compared"], distinct_maps=tot["distinct_maps"], honest_proofs_verified=tot["proofs_verified"],
